@@ -339,7 +339,7 @@ CHECK = {
                  "c18_oracle_valid_is_spec", "c18_oracle_read_is_spec",
                  "c18_dispatch_validate", "c18_dispatch_read",
                  "c18_components_partition", "c18_components_valid_total", "c18_components_total",
-                 "c18_dispatch_components", "c18_components_opaque", "c18_components_agrees", "c18_components_read_back", "c18_laid_out_uncompressed",
+                 "c18_dispatch_components", "c18_components_opaque", "c18_components_agrees", "c18_components_read_back", "c18_laid_out_uncompressed", "c18_components_read_back_ci",
                  "c18_read_starts_with_prepare", "c18_read_usize_panic_iff", "c18_read_usize_fits",
                  "c18_read_usize_in_message"],
     "allowed_axioms": [],
